@@ -31,16 +31,21 @@ enum Item {
     Abs(u32, u32),
     Rel(u32),
     Std,
+    /// an annotation statement (attaches to the next statement, wherever that comes from); not part of
+    /// the encoding for the model, which is about resolution and order only
+    Ann(u32),
 }
 
 fn enc_items(v: &[Item]) -> String {
     let s: Vec<String> = v
         .iter()
+        .filter(|i| !matches!(i, Item::Ann(_)))
         .map(|i| match i {
             Item::Mark(t) => format!("m{t}"),
             Item::Abs(d, f) => format!("a{d}:{f}"),
             Item::Rel(f) => format!("r{f}"),
             Item::Std => "s".to_string(),
+            Item::Ann(_) => unreachable!(),
         })
         .collect();
     if s.is_empty() {
@@ -82,6 +87,7 @@ impl World {
             match it {
                 Item::Mark(t) => s.push_str(&format!("int mk_{t};\nint dup_{t};\nint dup_{t};\nqubit qq_{t};\nU(1, 2, mk_{t}) qq_{t};\n")),
                 Item::Std => s.push_str("include \"stdgates.inc\";\n"),
+                Item::Ann(t) => s.push_str(&format!("@note{t} a b\n")),
                 Item::Abs(..) | Item::Rel(..) => {
                     let written = match it {
                         Item::Abs(d, f) => self.path(*d, *f).display().to_string(),
@@ -189,6 +195,10 @@ pub fn run(args: &[String]) {
             } else {
                 v.extend(ns);
             }
+            // an annotation at the end of an included file belongs to the next statement of the includer
+            if rng.below(8) == 0 {
+                v.push(Item::Ann(tag + 5000));
+            }
             content.insert((d, f), v);
         }
         // a user file called stdgates.inc, in some directories
@@ -207,6 +217,11 @@ pub fn run(args: &[String]) {
         }
         for f in 0..nfiles {
             if includer[f as usize] == Some(0) {
+                // an annotation directly before the include: it belongs to the first statement of the file
+                if rng.below(4) == 0 {
+                    tag += 1;
+                    main.push(Item::Ann(tag));
+                }
                 main.push(include_item(&mut rng, f));
                 if rng.below(2) == 0 {
                     tag += 1;
